@@ -108,6 +108,7 @@ package compiler
 //@   requires [wired] s.aliaser != nil
 //@   ensures [default_type] serviceType == nil ==> result == "interface{}"
 //@   ensures [local_type_as_written] serviceType != nil && inLang(*serviceType, reFull("\\*?[A-Za-z][A-Za-z0-9_]*")) ==> result == *serviceType
+//@   ensures [current_package_is_unqualified] serviceType != nil && inLang(*serviceType, reFull("\"\\.\"\\.[A-Za-z][A-Za-z0-9_]*")) ==> result == substr(*serviceType, 4, len(*serviceType) - 4)
 //@   ensures [pointer_prefix_kept] serviceType != nil && matches(*serviceType, regexServiceType) && hasPrefix(*serviceType, "*") ==> hasPrefix(result, "*")
 
 // ---- C02 / C04 / C15 / C12: the compiled output is a faithful, order-preserving image of the declared input.
@@ -195,6 +196,7 @@ package compiler
 //@   requires [wired] s.aliaser != nil
 //@   ensures [none] c == nil ==> result == ""
 //@   ensures [local_function_as_written] c != nil && inLang(*c, reFull("[A-Za-z][A-Za-z0-9_]*")) ==> result == *c
+//@   ensures [current_package_is_unqualified] c != nil && inLang(*c, reFull("\"\\.\"\\.[A-Za-z][A-Za-z0-9_]*")) ==> result == substr(*c, 4, len(*c) - 4)
 
 // C15 / C02: a todo service compiles to a bare placeholder carrying only its name (nothing else is looked at, nothing is
 // resolved); any other service keeps its name and is built from its own declaration, attribute by attribute.
@@ -260,6 +262,8 @@ package compiler
 //@   requires [wired] s.aliaser != nil && s.argResolver != nil
 //@   ensures [tag_and_raw] result.0.Tag == d.Tag && result.0.Raw == d.Decorator
 //@   ensures [args] result.0.Args == resolveArgs(s.argResolver, d.Args).0 && result.1 == resolveArgs(s.argResolver, d.Args).1
+//@   ensures [local_function_as_written] inLang(d.Decorator, reFull("[A-Za-z][A-Za-z0-9_]*")) ==> result.0.Decorator == d.Decorator
+//@   ensures [current_package_is_unqualified] inLang(d.Decorator, reFull("\"\\.\"\\.[A-Za-z][A-Za-z0-9_]*")) ==> result.0.Decorator == substr(d.Decorator, 4, len(d.Decorator) - 4)
 
 // C04: decorators keep their declaration order (file order after merging)
 //@ func (StepCompileDecorators).Process
